@@ -116,3 +116,43 @@ def origin_def(an, rv, bb, idx):
             continue
         return d
     return None
+
+
+def facts_at(ctx, body, bb):
+    """comparison facts holding on entry to bb (see util.normalized_guards), looking through boolean
+    variables built by `&&`: a guard `v == true` where v is a phi of `false` constants and one real
+    definition contributes that definition's condition and the guards that dominate it."""
+    an = ctx.an(body)
+    out = []
+    seen = set()
+    work = [bb]
+    while work:
+        x = work.pop()
+        if x in seen:
+            continue
+        seen.add(x)
+        for g in normalized_guards(ctx, body, x):
+            op, a, b2, si = g
+            out.append(g)
+            if op == 'true' and a[0] in ('phi', 'rec'):
+                ids = a[2] if a[0] == 'phi' else (a[1],)
+                live = []
+                for i in ids:
+                    d = an.defs[i]
+                    t = an.def_term(d) if not d.partial else None
+                    if t is not None and t[0] == 'const' and t[2] == '0':
+                        continue
+                    live.append((d, t))
+                if len(live) == 1 and live[0][1] is not None:
+                    d, t = live[0]
+                    c = t
+                    neg = False
+                    while c[0] == 'un' and c[1] == 'Not':
+                        c = c[2]
+                        neg = not neg
+                    if c[0] == 'bin' and c[1] in CMP_NEG:
+                        out.append((('!' if neg else '') + c[1], c[2], c[3], d.bb))
+                    else:
+                        out.append((('!' if neg else '') + 'true', c, None, d.bb))
+                    work.append(d.bb)
+    return out
